@@ -5,6 +5,11 @@ import DaeVerif.C03.Dae0
 import DaeVerif.C03.Consumer
 import DaeVerif.C03.Pressure
 import DaeVerif.C03.Teardown
+import DaeVerif.C03.Cgroup
+import DaeVerif.C03.Janitor2
+import DaeVerif.C03.ParamLayout
+import DaeVerif.C03.OrigDst
+import DaeVerif.C03.Fault
 import DaeVerif.Common.Proto
 /-!
 Line-protocol driver for C03.  The SAME op file is read by the native C driver
@@ -28,6 +33,10 @@ structure St where
   pressure : PressureCfg := {}
   /-- `ControlPlane.soMarkFromDae` -/
   soMark : Nat := 0
+  /-- `max_entries` of `cookie_pid_map` -/
+  ckCap : Nat := COOKIE_PID_MAX
+  /-- keys a janitor's `BatchLookup` walk collected (`jsnap`), to be deleted by `jdel` -/
+  plan : JanPlan := {}
 
 def hx (b : Bytes) : String := bytesToHex b
 
@@ -126,8 +135,17 @@ def constTable : List (String × Nat) := [
 def recStr (r : RResult) : String :=
   s!"{r.outbound}:{r.mark}:{r.must}:{r.dscp}:{hx (fit 6 r.mac)}:{hx (fit 16 r.pname)}:{r.pid}"
 
+/-- `-`: the helper fails; `=`: empty; else hex -/
+def optBytes? (t : String) : Option (Option Bytes) :=
+  if t = "-" then some none else if t = "=" then some (some []) else (hexToBytes? t).map some
+
+/-- the absolute `staleBeforeNs` of a round at time `t` that retires what was idle for more than `ago` -/
+def staleAt (t ago : Nat) : Nat := if ago = 0 then 0 else if t > ago then t - ago else 1
+
+def sortedHex (l : List String) : String := ";".intercalate (l.mergeSort (fun a b => a ≤ b))
+
 def resetSt (st : St) : St :=
-  { last := (0, 0, 0, 0), us := {}, scope := false, relay := st.relay, pressure := st.pressure, soMark := st.soMark, w := { connCap := st.w.connCap, handoffCap := st.w.handoffCap, rtrackCap := st.w.rtrackCap }, maps := C02.KMaps.empty }
+  { last := (0, 0, 0, 0), us := {}, scope := false, relay := st.relay, pressure := st.pressure, soMark := st.soMark, ckCap := st.ckCap, w := { connCap := st.w.connCap, handoffCap := st.w.handoffCap, rtrackCap := st.w.rtrackCap }, maps := C02.KMaps.empty }
 
 def handle (st : St) (line : String) : St × String :=
   match words line with
@@ -136,13 +154,65 @@ def handle (st : St) (line : String) : St × String :=
     | some a, some b, some c =>
       (resetSt { st with w := { st.w with connCap := a, handoffCap := b, rtrackCap := c } }, "ok")
     | _, _, _ => (st, "bad-op")
+  | ["caps", a, b, c, d] =>
+    match a.toNat?, b.toNat?, c.toNat?, d.toNat? with
+    | some a, some b, some c, some d =>
+      (resetSt { st with ckCap := d, w := { st.w with connCap := a, handoffCap := b, rtrackCap := c } }, "ok")
+    | _, _, _, _ => (st, "bad-op")
   | ["reset"] => (resetSt st, "ok")
+  | ["cg", prog, cookie, tgid, hasTask, comm, args] =>
+    match cookie.toNat?, tgid.toNat?, hasTask.toNat?, optBytes? comm, optBytes? args with
+    | some cookie, some tgid, some hasTask, some comm, some args =>
+      let t : CgTask := ⟨tgid % 2 ^ 32, comm, args, hasTask % 256 != 0⟩
+      let w := st.w
+      if prog = "release" then
+        let w' := cgRelease w cookie
+        ({ st with w := w' }, s!"rc=1 ck={diffMaps (ckImg w) (ckImg w')}")
+      else if ["create", "connect4", "connect6", "sendmsg4", "sendmsg6"].contains prog then
+        let w' := cgUpdate st.ckCap w cookie t
+        ({ st with w := w' }, s!"rc=1 ck={diffMaps (ckImg w) (ckImg w')}")
+      else (st, "bad-op")
+    | _, _, _, _, _ => (st, "bad-op")
+  | ["jan4", aggr, age, ago] =>
+    -- one atomic round over the four maps `age` ns from now; `ago` ≠ 0: RunReloadRetirementCleanup retiring what was idle
+    -- for more than `ago` ns (always aggressive); nothing is deleted in the driver's world
+    match aggr.toNat?, age.toNat?, ago.toNat? with
+    | some aggr, some age, some ago =>
+      let t := st.w.now + age
+      let pl := janPlan (aggr != 0 || ago != 0) t (staleAt t ago) st.w
+      (st, s!"del=[{sortedHex (pl.conn.map fun k => hx (encKey k))}] hdel=[{sortedHex (pl.handoff.map fun k => hx (encKey k))}]" ++
+        s!" rdel=[{sortedHex (pl.rtrack.map fun k => hx (encRKey k))}] cdel=[{sortedHex (pl.cookies.map fun k => hx (le 8 k))}]")
+    | _, _, _ => (st, "bad-op")
+  | ["jsnap", aggr, age, ago] =>
+    -- phase 1 of a conn-state / hand-off janitor round: the BatchLookup walk
+    match aggr.toNat?, age.toNat?, ago.toNat? with
+    | some aggr, some age, some ago =>
+      let t := st.w.now + age
+      ({ st with plan := janPlan (aggr != 0) t (staleAt t ago) st.w }, "-")
+    | _, _, _ => (st, "bad-op")
+  | ["jdel"] =>
+    -- phase 2, on the world as it is now: which of its entries go
+    let w' := janApply st.plan st.w
+    let gone := fun (img : World → List (String × String)) =>
+      sortedHex (((img st.w).filter fun p => ((img w').lookup p.1).isNone).map (·.1))
+    ({ st with plan := {} }, s!"del=[{gone connImg}] hdel=[{gone hoImg}]")
   | "param" :: pid :: sm :: ifx :: peer :: mac :: rest =>
     match pid.toNat?, sm.toNat?, ifx.toNat?, peer.toNat?, hexToBytes? mac,
         (match rest with | [] => some 0 | [ns] => ns.toNat? | _ => none) with
     | some pid, some sm, some ifx, some peer, some mac, some ns =>
       ({ st with w := { st.w with param := ⟨pid, sm, ifx, peer % 256 != 0, fit 6 mac, ns⟩ } }, "ok")
     | _, _, _, _, _, _ => (st, "bad-op")
+  | ["paramimg", img] =>
+    -- PARAM := the bytes the control plane's struct literal serialises to, read back at the C offsets
+    match hexToBytes? img with
+    | some b =>
+      if b.length != SIZEOF_DAE_PARAM then (st, s!"size-mismatch go={b.length} c={SIZEOF_DAE_PARAM}")
+      else
+        let x := decParam b
+        ({ st with w := { st.w with param := x.p } },
+          s!"port={x.tproxyPort} pid={x.p.ctlPid} dae0={x.p.dae0If} netns={x.p.netns} mac={hx x.p.peerMac}" ++
+          s!" peer={if x.p.usePeer then 1 else 0} task={if x.hasTask then 1 else 0} mark={x.p.sockMark} size={SIZEOF_DAE_PARAM}")
+    | none => (st, "bad-op")
   | "lpm" :: slot :: nk :: ks =>
     match slot.toNat?, nk.toNat?, ks.mapM parseLpmKey? with
     | some slot, some nk, some keys =>
@@ -188,7 +258,10 @@ def handle (st : St) (line : String) : St × String :=
   | ["cookie", c, pid, pn] =>
     match c.toNat?, pid.toNat?, hexToBytes? pn with
     | some c, some pid, some pn =>
-      ({ st with w := { st.w with cookies := (c, ⟨st.w.now, pid, fit 16 pn⟩) :: st.w.cookies.filter (·.1 != c) } }, "ok")
+      -- bpf_map_update_elem(BPF_ANY) from userspace: fails (silently here) when the map is full
+      match aupdate st.ckCap st.w.cookies c ⟨st.w.now, pid, fit 16 pn⟩ with
+      | some m => ({ st with w := { st.w with cookies := m } }, "ok")
+      | none => (st, "ok")
     | _, _, _ => (st, "bad-op")
   | ["cookiedel", c] =>
     match c.toNat? with
@@ -260,6 +333,26 @@ def handle (st : St) (line : String) : St × String :=
         let x := udpConsumer st.relay st.scope us (sip, sport) (dip, dport) k
         ({ st with us := x.u }, s!"use={recStr x.rr} fresh={boolStr x.fresh} el=0")
     | _, _, _, _, _, _, _ => (st, "bad-op")
+  | ["use", l4, sip, sport, dip, dport, age, dtms, fault] =>
+    -- the same with one of RetrieveRoutingResult's map lookups failing (an error that is not ErrKeyNotExist)
+    match l4.toNat?, hexToNat? sip, sport.toNat?, hexToNat? dip, dport.toNat?, age.toNat?, dtms.toNat? with
+    | some l4, some sip, some sport, some dip, some dport, some age, some dtms =>
+      let us := { st.us with ut := st.us.ut + dtms * 1000000 }
+      let f : LookupFault := if fault = "conn" then .conn else if fault = "ho" then .handoff else .none
+      let r := retrieveF f st.w ⟨sip, dip, sport, dport, l4⟩ (st.w.now + age)
+      if l4 = IPPROTO_TCP then
+        match tcpConsumerF r with
+        | none => ({ st with us := us }, "use=error")
+        | some rr =>
+          ({ st with us := { us with ut := us.ut + tcpConsumerDelayF st.relay r } },
+            s!"use={recStr rr} fresh=- el={tcpConsumerDelayF st.relay r}")
+      else if dport = 53 then
+        ({ st with us := us }, s!"use={recStr (dnsConsumerF st.soMark r)} fresh=- el=0")
+      else
+        match udpConsumerF st.relay st.scope us (sip, sport) (dip, dport) r with
+        | (u, none) => ({ st with us := u }, "use=dropped")
+        | (u, some (rr, fresh)) => ({ st with us := u }, s!"use={recStr rr} fresh={boolStr fresh} el=0")
+    | _, _, _, _, _, _, _ => (st, "bad-op")
   | ["peer", mask] =>
     -- tproxy_dae0peer_ingress on the skb the last frame op left (after a redirect: the handed-over frame)
     match mask.toNat? with
@@ -319,6 +412,15 @@ def handle (st : St) (line : String) : St × String :=
       let r := pressureStep st.pressure ⟨act != 0, below⟩ (ov != 0) usage
       (st, s!"active={boolStr r.active} below={r.below}")
     | _, _, _, _ => (st, "bad-op")
+  | ["origdst", oob] =>
+    -- RetrieveOriginalDest on the control messages of a received datagram
+    match (if oob = "=" then some [] else hexToBytes? oob) with
+    | some b =>
+      match retrieveOriginalDest b with
+      | .none => (st, "od=-")
+      | .v4 a p => (st, s!"od=4:{hx a}:{p}")
+      | .v6 a p => (st, s!"od=6:{hx a}:{p}")
+    | none => (st, "bad-op")
   | ["hoexp", now, last] =>
     match now.toNat?, last.toNat? with
     | some now, some last => (st, s!"expired={boolStr (handoffExpired now last)}")
